@@ -123,6 +123,10 @@ impl Iterator for AnsiElementIterator<'_> {
 impl anstyle_parse::Perform for Performer {
     fn csi_dispatch(&mut self, params: &Params, intermediates: &[u8], ignore: bool, byte: u8) {
         if ignore || intermediates.len() > 1 {
+            // The bytes of a malformed or unsupported CSI sequence have been consumed: they must
+            // still be reported as a (non-text) element, otherwise the byte ranges of all the
+            // following elements are shifted.
+            self.element = Some(Element::Csi(0, 0));
             return;
         }
 
